@@ -17,7 +17,8 @@ tier, seeds = args[0], args[1:] or ["1"]
 env = dict(os.environ, VERIF_REPO=repo, GOFLAGS="-mod=mod", GOPROXY="off", GOSUMDB="off", GOTOOLCHAIN="local",
            VERIF_EVIDENCE_DIR=os.path.join(ROOT, ".work", "evidence_soak"))
 gomod = os.path.join(ROOT, "go", "go.mod")
-open(gomod, "w").write(re.sub(r"replace massnet.org/mass => \S+", "replace massnet.org/mass => " + repo, open(gomod).read()))
+txt = re.sub(r"replace massnet.org/mass => \S+", "replace massnet.org/mass => " + repo, open(gomod).read())
+open(gomod, "w").write(txt)
 sh = open(os.path.join(ROOT, "setup.sh")).read().replace("-repo /repo", "-repo " + repo)
 open(os.path.join(ROOT, "setup.sh"), "w").write(sh)
 subprocess.check_call(["sh", "./setup.sh"], cwd=ROOT, env=env)
